@@ -239,6 +239,11 @@ for fn in ('eav_result_free', 'eav_free', 'eav_is_email'):
             timeout=600, reach=(4 if fn == 'eav_is_email' else 1), expect=['postcondition'], functions=[fn + ' (EAV_EXTRA build)'],
             files=['partial/idn2/eav.c', 'src/eav.c'], assumptions=[A2, A7]))
 
+add(Job('is_special_domain_Aq', 'harness/is_special_domain.c', enforce='is_special_domain', loops=True, defines=['-DJOB_A'], timeout=800, reach=0, mem_est=8, solvers=('minisat2', 'cadical'),
+        pre_unwind=SP_HELPER_LOOPS, safety_checks=False, extra_cbmc=['--no-standard-checks'], expect=['loop_invariant_base', 'loop_invariant_step', 'loop_decreases', 'assertion'],
+        functions=['is_special_domain (counting and skipping loops, quick variant)'], files=['src/is_special_domain.c'], assumptions=[A4, A9,
+            'quick variant of job A: same loop contracts and cut obligations, CBMC memory-safety instrumentation off (it is on in job A of the thorough tier)'],
+        note='positions half of C09 without the safety instrumentation'))
 add(Job('is_special_domain_Bq', 'harness/is_special_domain.c', enforce='is_special_domain', loops=True, defines=['-DJOB_B', '-DSP_LITE'], timeout=600, reach=4,
         pre_unwind=SP_HELPER_LOOPS, safety_checks=False, extra_cbmc=['--no-standard-checks'], expect=['postcondition', 'assertion'],
         functions=['is_special_domain (verdict after the cut, quick variant)'], files=['src/is_special_domain.c'], assumptions=[A4, A6, A9,
